@@ -16,6 +16,7 @@
 (*                identifier is not a section keyword      column 0        *)
 (*   k = "item"   a = F1 `name: d`  F2 `name (t): d`  F3 `(t): d`          *)
 (*                    F4 `: d`  F5 no colon  F6 `name(sig): d`   ind > 0   *)
+(*                    F7 `name : d` (white space before the colon, no type) *)
 (*   k = "fence"  ``` at any indent      k = "prompt"  >>> at ind > 0      *)
 (*                a = "flags": with a `# doctest: +FLAG` comment (a colon)  *)
 (*   ind = number of leading spaces, in {0, 4, 6, 8}                       *)
@@ -66,7 +67,8 @@ OptNames == {"ignore_init_summary", "returns_multiple_items", "returns_named_val
 \* tuplefn / genfn / tupleprop / tuple0fn / gen1fn / gen2fn / iterfn: function (property) whose return annotation is tuple[a, b],
 \* Generator[(a,b), (a,b), (a,b)], tuple[a, b], tuple[()], Generator[a], Generator[a, None], Iterator[a]: expressions with fewer
 \* elements than a docstring may document items / than _annotation_from_parent indexes (it runs under suppress(Exception))
-Parents == {"none", "module", "class", "function", "init", "property", "aliasmod", "tuplefn", "genfn", "tupleprop", "tuple0fn", "gen1fn", "gen2fn", "iterfn"}
+Parents == {"none", "module", "class", "function", "init", "property", "aliasmod", "tuplefn", "genfn", "tupleprop", "tuple0fn", "gen1fn", "gen2fn", "iterfn",
+            "detachedinit"}      \* detachedinit: a hand-built function named __init__ without any parent (not "__init__ in a class")
 PropParents == {"property", "tupleprop"}
 
 ItemKinds == {"parameters", "other_parameters", "raises", "warns", "functions", "classes", "modules", "attributes"}
@@ -90,7 +92,7 @@ Core == {Blank("e"), Text("plain"), Text("colon"), Adm(FALSE), FenceL(0), FenceL
           \cup {Item(4, f) : f \in {"F1", "F4", "F5"}} \cup {Item(6, "F5"), Item(8, "F1"), Item(8, "F5")}
 \* every section kind, every item form; a title on one section kind and on admonitions (a title is carried, never tested)
 Mid == Core \cup {Blank("w"), Adm(TRUE), PromptF(4), Sec("parameters", TRUE)} \cup {Sec(K, FALSE) : K \in SecKinds}
-          \cup {Item(4, f) : f \in {"F2", "F3", "F6"}} \cup {Item(6, "F1"), Item(8, "F4")}
+          \cup {Item(4, f) : f \in {"F2", "F3", "F6", "F7"}} \cup {Item(6, "F1"), Item(8, "F4")}
 Rich == Mid \cup {Sec(K, TRUE) : K \in SecKinds}
 \* regression domain: small alphabet on which the repaired crashes were reachable with three lines
 Defect == {Text("plain"), Item(4, "F1"), Item(4, "F4"), Item(4, "F5"),
@@ -171,6 +173,7 @@ ParamEl(it) ==      \* _read_parameters
   CASE f = "F1" -> El(it, "n", SigAnn(it), SigDef(it), "c")
     [] f = "F2" -> El(it, "n", "doc", SigDef(it), "c")          \* " " in name_with_type
     [] f = "F?" -> El(it, "x", "x", "none", "c")                \* " " in name_with_type, both parts are other text
+    [] f = "F7" -> El(it, "n", "e", SigDef(it), "c")             \* `name ` -> split(" ", 1) -> name, annotation ""
     [] f = "F4" -> El(it, "e", "none", "none", "c")
     [] OTHER    -> El(it, "x", "none", "none", "c")             \* "(t)", "name(sig)": looked up by that text, not found
 NameSigEl(it) ==    \* functions / classes
@@ -198,8 +201,8 @@ MapAccepted(items, K, acc) ==
 AttrEl(it) ==
   LET f == Form(it)
       found == f = "F1" /\ sig[it.first + 1].ann          \* docstring.parent[name].annotation
-  IN El(it, IF f \in {"F1", "F2"} THEN "n" ELSE IF f = "F4" THEN "e" ELSE "x",
-        IF f = "F2" THEN "doc" ELSE IF f = "F?" THEN "x" ELSE IF found THEN "sig" ELSE "none", "-", "c")
+  IN El(it, IF f \in {"F1", "F2", "F7"} THEN "n" ELSE IF f = "F4" THEN "e" ELSE "x",
+        IF f = "F2" THEN "doc" ELSE IF f = "F?" THEN "x" ELSE IF f = "F7" THEN "e" ELSE IF found THEN "sig" ELSE "none", "-", "c")
 RECURSIVE AttrFold(_, _)
 AttrFold(items, acc) ==
   IF items = <<>> THEN acc
@@ -216,7 +219,7 @@ RetEl(it, K, named) ==
   LET f == Form(it)
       parentann == IF Mode = "seq" THEN "p" ELSE IF sig[it.first + 1].ann THEN ParentRet(K) ELSE "none"   \* "p": whatever the parent supplies
   IN IF named        \* _RE_NAME_ANNOTATION_DESCRIPTION: `name? (type)?: desc`, else everything is the description
-       THEN CASE f = "F1" -> El(it, "n", parentann, "-", "c")
+       THEN CASE f \in {"F1", "F7"} -> El(it, "n", parentann, "-", "c")       \* `\w+\s*:` - white space before the colon is fine
               [] f = "F2" -> El(it, "n", "doc", "-", "c")
               [] f = "F3" -> El(it, "e", "doc", "-", "c")
               [] f = "F6" -> El(it, "n", "doc", "-", "c")         \* `name(sig): d`: the regex takes sig as the type
@@ -224,7 +227,7 @@ RetEl(it, K, named) ==
               [] OTHER    -> El(it, "e", parentann, "-", "l")     \* F5, F?: the optional prefix does not match
        ELSE CASE f = "F1" -> El(it, "e", "doc", "-", "c")         \* the text before the colon is the annotation
               [] f = "F3" -> El(it, "e", "doc", "-", "c")
-              [] f \in {"F2", "F6", "F?"} -> El(it, "e", "x", "-", "c")
+              [] f \in {"F2", "F6", "F7", "F?"} -> El(it, "e", "x", "-", "c")
               [] f = "F4" -> El(it, "e", parentann, "-", "c")     \* annotation "" is falsy
               [] OTHER    -> El(it, "e", parentann, "-", "l")     \* F5: no colon
 
@@ -262,9 +265,12 @@ Split(P, b) == IF b THEN pcand \cap P ELSE pcand \ P       \* candidates for whi
 
 \* =========================================== the case space ===========================================================
 NoSig == [ann |-> FALSE, def |-> FALSE]
-CleandocFixedPoint(d) ==      \* inspect.cleandoc(d.rstrip()) == d
-  /\ d[1].ind = 0 /\ ~IsBlank(d[1]) /\ ~IsBlank(d[Len(d)])
-  /\ (Len(d) > 1 => \E j \in 2..Len(d) : ~IsBlank(d[j]) /\ d[j].ind = 0)
+\* Docstring.value = inspect.cleandoc(source.rstrip()): first and last line non-blank, and the common indentation is removed, so
+\* SOME non-blank line (possibly the first: a source that starts with a newline keeps the relative indentation of its first
+\* paragraph) has no indentation.  ("Args:" followed only by indented lines is the most common docstring shape.)
+CleandocFixedPoint(d) ==
+  /\ ~IsBlank(d[1]) /\ ~IsBlank(d[Len(d)])
+  /\ \E j \in 1..Len(d) : ~IsBlank(d[j]) /\ d[j].ind = 0
 
 \* ---- struct mode: structures and their well-formed layout (RenderLines) ------------------------------------------
 Shapes == {"one", "two", "blank"}
@@ -409,8 +415,8 @@ RenderLines(st, so) ==     \* summary line, then the sections
 \* every cleandoc-stable sequence of 1..MaxLen classes (enumerated piecewise: first line, middle, last line), + the empty docstring
 SeqLines ==
   \/ lines = <<Blank("e")>>
-  \/ \E n \in 1..MaxLen : \E a \in {x \in Alphabet : x.ind = 0 /\ ~IsBlank(x)} :
-       IF n = 1 THEN lines = <<a>>
+  \/ \E n \in 1..MaxLen : \E a \in {x \in Alphabet : ~IsBlank(x)} :
+       IF n = 1 THEN lines = <<a>> /\ CleandocFixedPoint(lines)
        ELSE \E z \in {x \in Alphabet : ~IsBlank(x)}, m \in [1..(n - 2) -> Alphabet] :
               lines = <<a>> \o m \o <<z>> /\ CleandocFixedPoint(lines)
 InitSeq ==
